@@ -141,6 +141,7 @@ pub open spec fn interest(name: Seq<char>, macros: Seq<RustLogMacro>, k: int) ->
     rules.r_parse_u32(f)
     rules.r5_format(f, kinds={"ref_kvp_key": "str"}, min_count=1)
     rules.r6_str_slice(f, ["code"])
+    rules.r9_str_len(f, ["code", "macro_name"])
     rules.r9_method_to_fn(f, "from_str", "XX") if False else None
     f.replace_all(r"String::from_str\s*\(", "string_from_str(", "R9", regex=True, min_count=1)
     # R15: last path segment of the macro name (stored in the unused `_macro_name` field)
